@@ -508,6 +508,22 @@ func checkC13OptionsOrder(c *Ctx) {
 	if n == 0 {
 		r.OK("C13.user-options-last", fnName(RC)+":no-merge", p.Pos(RC.Pos()), "options are not merged with defaults")
 	}
+	// ---- C13.parse-with-application-options: every parse of the user's file is made for the application
+	r.Rule("C13.parse-with-application-options", "K3", "every parse of the user's inputrc started by ReloadConfig is given the application's options (its options argument is built from the opts parameter): a parse made for another application name, mode or terminal applies the $else branches and the blocks that are inactive for the application, and a later parse does not take them back", 1)
+	m := 0
+	for i, cl := range callsTo(RC, false, "inputrc.UserDefault", "inputrc.ParseBytes", "inputrc.ParseFile", "inputrc.Parse") {
+		args := cl.Common().Args
+		if len(args) == 0 {
+			continue
+		}
+		m++
+		optsArg := args[len(args)-1]
+		fromApp := dependsOn(optsArg, func(v ssa.Value) bool { return v == ssa.Value(RC.Params[1]) })
+		r.Check(fromApp, "C13.parse-with-application-options", siteKey(RC, "parse", i), p.IPos(cl.(ssa.Instruction)), "parsed with the application's options", "the user's inputrc is parsed with options that do not come from the application (a fixed application name, no mode, no terminal): the $else branch of every $if mode= / term= / <application> test that holds for the application is applied by this parse and stays in effect")
+	}
+	if m == 0 {
+		r.Unk("C13.parse-with-application-options", fnName(RC)+":parse", p.Pos(RC.Pos()), "ReloadConfig parses nothing: anchor changed")
+	}
 }
 
 // ---- C18.stop-clears-recording / C18.stop-on-accept-only
